@@ -40,7 +40,6 @@ type c07case struct {
 	Mode   string // args: plain | ind | spread
 	Shape  string // call-site shape / access path
 	Defer  bool   // args: the call is deferred
-	Hold   bool   // args: an argument holds a script closure other than a top-level function literal
 	FuncV  bool   // args, script calls script: the callee is a function value (called through reflect)
 	Ts     []*c07t
 	Sent   []*cval
@@ -435,8 +434,10 @@ func (h *c07h) genA1(r *rng, region string) *c07A {
 		if !sig.Variadic {
 			return nil
 		}
-	case "defer-callback":
-		if len(sig.Out) > 1 || len(sig.In) == 0 {
+	case "corpus:defer-callback":
+		// witnesses of the repaired finding C07-defer-callback (abe7a69), kept as corpus cases:
+		// a deferred host call given a closure held in a variable, which the host calls back
+		if len(sig.Out) > 1 || len(sig.In) == 0 || sig.Variadic {
 			return nil
 		}
 	}
@@ -462,7 +463,7 @@ func (h *c07h) genA1(r *rng, region string) *c07A {
 		if region == "defer-spread" {
 			a.mode = "spread"
 		}
-		if a.mode == "ind" && len(last.L) == 0 && region == "" {
+		if a.mode == "ind" && len(last.L) == 0 && region != "variadic-empty" {
 			// the main stream always lists at least one variadic argument
 			last.Nil = false
 			last.L = []*cval{c07fill(vg.val(last.T.Elem, false))}
@@ -490,29 +491,22 @@ func (h *c07h) genA1(r *rng, region string) *c07A {
 	switch region {
 	case "defer-spread":
 		a.shape = "defer"
-		if a.deadlocks() {
-			return nil
-		}
-	case "defer-callback":
+	case "corpus:defer-callback":
 		a.shape = "defer"
 		a.form = "var"
-		if !a.deadlocks() || a.mode == "spread" {
+		if !a.hold() {
 			return nil
 		}
 	case "":
-		if a.shape == "defer" && (a.mode == "spread" || a.deadlocks()) {
+		if a.shape == "defer" && a.mode == "spread" {
 			return nil
 		}
 	}
 	return a
 }
 
-// deadlocks: a deferred host call one of whose arguments holds a script closure that is not a
-// top-level function literal of the call (the host function calls every function it receives).
-func (a *c07A) deadlocks() bool {
-	return a.shape == "defer" && a.hold()
-}
-
+// hold: does an argument hold a script closure other than a top-level function literal of the call?
+// (until abe7a69 a deferred host call that called such a closure back hung on the frame mutex)
 func (a *c07A) hold() bool {
 	if a.form == "hostmk" {
 		return false
@@ -672,7 +666,7 @@ func (h *c07h) runA(j *c07job, a *c07A, region string) {
 
 	// crossing 1: arguments, script -> host. Reference: Go's binding of the same actual arguments,
 	// observed natively on the manufactured values.
-	ca := &c07case{Kind: "args", Dir: "S2H", Sig: sig, Mode: a.mode, Shape: a.shape + "/" + a.form, Defer: a.shape == "defer", Hold: a.hold(),
+	ca := &c07case{Kind: "args", Dir: "S2H", Sig: sig, Mode: a.mode, Shape: a.shape + "/" + a.form, Defer: a.shape == "defer",
 		Ts: sig.In, Sent: act, Ref: c07nativeList(c07goBind(sig, a.mode, a.args), env), Region: region, Input: in}
 	mu.Lock()
 	switch {
@@ -991,15 +985,18 @@ func runC07(args []string) error {
 	if *tier == "thorough" {
 		nA, nB, nReg = 6000, 5000, 30
 	}
-	// newRng's seeding makes the streams of seeds k and k+2 shifted copies of each other: mix the seed first
-	root := &rng{s: (*seed + 0x632BE59BD9B4E019) * 0xD1342543DE82EF95}
-	root = root.fork().fork()
+	root := newRng(*seed)
 	var jobs []*c07job
 	for k := 0; k < nA; k++ {
 		a := h.genA(root.fork(), "")
 		jobs = append(jobs, &c07job{a: a, run: func(j *c07job) { h.runA(j, a, "") }})
 	}
-	for _, region := range []string{"variadic-empty", "defer-spread", "defer-callback"} {
+	// corpus: the witnesses of repaired findings run first, from fixed seeds, in the main stream
+	for k := 0; k < 3; k++ {
+		a := h.genA(newRng(uint64(7001+k)), "corpus:defer-callback")
+		jobs = append(jobs, &c07job{a: a, run: func(j *c07job) { h.runA(j, a, "") }})
+	}
+	for _, region := range []string{"variadic-empty", "defer-spread"} {
 		for k := 0; k < nReg; k++ {
 			region := region
 			a := h.genA(root.fork(), region)
